@@ -556,8 +556,12 @@ class SourceGenerator(NodeVisitor):
         for idx, (key, value) in enumerate(zip(node.keys, node.values)):
             if idx:
                 self.write(", ")
-            self.visit(key)
-            self.write(": ")
+            if key is None:
+                # {**d} is an item without a key
+                self.write("**")
+            else:
+                self.visit(key)
+                self.write(": ")
             self.visit(value)
         self.write("}")
 
